@@ -15,11 +15,13 @@ import (
 	"flag"
 	"fmt"
 	"go/ast"
+	"go/build"
 	"go/format"
 	"go/parser"
 	"go/token"
 	"os"
 	"path/filepath"
+	"sort"
 	"strconv"
 	"strings"
 )
@@ -45,6 +47,7 @@ func main() {
 		redirect["sync"] = "verif/shim/vsync"
 	}
 	replace := map[string]string{}
+	pkgs := map[string]*pkgInfo{}
 	n := 0
 	err := filepath.Walk(*repo, func(p string, info os.FileInfo, err error) error {
 		if err != nil {
@@ -68,6 +71,30 @@ func main() {
 		f, err := parser.ParseFile(fset, p, nil, parser.ParseComments)
 		if err != nil {
 			return fmt.Errorf("parse %s: %w", p, err)
+		}
+		// package-level variables of files that are part of this build (for the globals registry)
+		if !strings.HasSuffix(p, "_test.go") && f.Name.Name != "main" {
+			if ok, _ := build.Default.MatchFile(filepath.Dir(p), filepath.Base(p)); ok {
+				dir := filepath.Dir(p)
+				pi := pkgs[dir]
+				if pi == nil {
+					pi = &pkgInfo{name: f.Name.Name}
+					pkgs[dir] = pi
+				}
+				for _, d := range f.Decls {
+					gd, ok := d.(*ast.GenDecl)
+					if !ok || gd.Tok != token.VAR {
+						continue
+					}
+					for _, sp := range gd.Specs {
+						for _, id := range sp.(*ast.ValueSpec).Names {
+							if id.Name != "_" {
+								pi.vars = append(pi.vars, id.Name)
+							}
+						}
+					}
+				}
+			}
 		}
 		changed := false
 		for _, imp := range f.Imports {
@@ -141,10 +168,54 @@ func main() {
 			return nil
 		})
 	}
+	// one added file per library package: registers the addresses of its package-level variables
+	modPath := modulePath(*repo)
+	for dir, pi := range pkgs {
+		if len(pi.vars) == 0 {
+			continue
+		}
+		rel, _ := filepath.Rel(*repo, dir)
+		imp := modPath
+		if rel != "." {
+			imp += "/" + filepath.ToSlash(rel)
+		}
+		sort.Strings(pi.vars)
+		var sb strings.Builder
+		fmt.Fprintf(&sb, "package %s\n\nimport verifglobals \"verif/shim/globals\"\n\nfunc init() {\n\tverifglobals.Register(%q, func() []verifglobals.Var {\n\t\treturn []verifglobals.Var{\n", pi.name, imp)
+		for _, v := range pi.vars {
+			fmt.Fprintf(&sb, "\t\t\t{Name: %q, Ptr: &%s},\n", v, v)
+		}
+		sb.WriteString("\t\t}\n\t})\n}\n")
+		dst := filepath.Join(*out, "globals__"+strings.ReplaceAll(rel, string(filepath.Separator), "__")+".go")
+		if err := os.WriteFile(dst, []byte(sb.String()), 0o644); err != nil {
+			fmt.Fprintln(os.Stderr, "ovgen:", err)
+			os.Exit(2)
+		}
+		replace[filepath.Join(dir, "zz_verif_globals.go")] = dst
+	}
 	b, _ := json.MarshalIndent(map[string]any{"Replace": replace}, "", " ")
 	if err := os.WriteFile(filepath.Join(*out, "overlay.json"), b, 0o644); err != nil {
 		fmt.Fprintln(os.Stderr, "ovgen:", err)
 		os.Exit(2)
 	}
 	fmt.Fprintf(os.Stderr, "ovgen: %d files rewritten, %d overlay entries\n", n, len(replace))
+}
+
+type pkgInfo struct {
+	name string
+	vars []string
+}
+
+// modulePath reads the module line of the repository's go.mod.
+func modulePath(repo string) string {
+	b, err := os.ReadFile(filepath.Join(repo, "go.mod"))
+	if err != nil {
+		return "github.com/foxboron/go-uefi"
+	}
+	for _, ln := range strings.Split(string(b), "\n") {
+		if strings.HasPrefix(ln, "module ") {
+			return strings.TrimSpace(strings.TrimPrefix(ln, "module "))
+		}
+	}
+	return "github.com/foxboron/go-uefi"
 }
